@@ -613,6 +613,50 @@ class Gen:
             info.setdefault("skipped_hints", []).append(f"loop count {nloops} -> {len(loops)}")
         clos_spec = {int(c.args[0]): c for c in cls if c.kind == "closure"}
         clos_types = {int(c.args[0]): c for c in cls if c.kind == "closure_types"}
+        # closure specs are keyed by ordinal. If the number of closures differs from the one recorded in specs/PARAMS.json, the
+        # recorded closures are aligned with the present ones by their parameter names (longest common subsequence); a spec whose
+        # closure has no partner is skipped (soft), instead of being attached to an unrelated closure
+        def _cnames(cl):
+            out = []
+            if st[cl.bar].text != "|": return tuple(out)
+            gs, cg, idx = [], [], cl.bar + 1
+            while idx < cl.params_end:
+                t = st[idx]
+                if t.text in rs.OPEN:
+                    e = rs.match_close(st, idx); cg += list(range(idx, e + 1)); idx = e + 1; continue
+                if t.text == ",": gs.append(cg); cg = []
+                else: cg.append(idx)
+                idx += 1
+            if cg: gs.append(cg)
+            for g in gs:
+                toks = [st[i] for i in g if st[i].text not in ("mut", "&", "ref")]
+                out.append(toks[0].text if toks and toks[0].kind == "ident" and toks[0].text != "_" else None)
+            return tuple(out)
+        actual_c = [_cnames(cl) for cl in closures]
+        base_c = []
+        while f"{self.unit}/{fid}#closure{len(base_c) + 1}" in PARAMS_BASE:
+            base_c.append(tuple(PARAMS_BASE[f"{self.unit}/{fid}#closure{len(base_c) + 1}"]))
+        closure_alias = {}   # actual ordinal -> recorded ordinal (for PARAMS lookup)
+        if base_c and len(base_c) != len(actual_c):
+            n, m = len(base_c), len(actual_c)
+            L = [[0] * (m + 1) for _ in range(n + 1)]
+            for i in range(n - 1, -1, -1):
+                for j in range(m - 1, -1, -1):
+                    L[i][j] = L[i + 1][j + 1] + 1 if base_c[i] == actual_c[j] else max(L[i + 1][j], L[i][j + 1])
+            i = j = 0; mp = {}
+            while i < n and j < m:
+                if base_c[i] == actual_c[j]: mp[i + 1] = j + 1; i += 1; j += 1
+                elif L[i + 1][j] >= L[i][j + 1]: i += 1
+                else: j += 1
+            for dct in (clos_spec, clos_types):
+                newd = {}
+                for kk, v in dct.items():
+                    if kk in mp: newd[mp[kk]] = v
+                    elif dct is clos_spec:
+                        self.skipped_hints.append(f"{fid}: closure {kk} has no partner among the {m} closures present")
+                        info.setdefault("skipped_hints", []).append(f"closure {kk} unmatched")
+                dct.clear(); dct.update(newd)
+            closure_alias = {v: kk for kk, v in mp.items()}
         for k in list(clos_spec):
             if k < 1 or k > len(closures):
                 self.skipped_hints.append(f"{fid}: closure {k} not found ({len(closures)} closures)")
@@ -667,7 +711,7 @@ class Gen:
                     cnames.append(toks[0].text if toks and toks[0].kind == "ident" and toks[0].text != "_" else None)
             ckey = f"{self.unit}/{fid}#closure{k}"
             self.param_names[ckey] = cnames
-            cbase = PARAMS_BASE.get(ckey)
+            cbase = PARAMS_BASE.get(f"{self.unit}/{fid}#closure{closure_alias.get(k, k)}") if (not closure_alias or k in closure_alias) else None
             cren = {}
             if cbase and len(cbase) == len(cnames):
                 cren = {b: a for a, b in zip(cnames, cbase) if a and b and a != b}
@@ -880,6 +924,7 @@ class Gen:
                     "map_sum": ([".", "iter", "(", ")", ".", "map", "("], [".", "sum", "(", ")"], "it_map_sum_u64(&", False),
                     "try_map_collect": ([".", "iter", "(", ")", ".", "map", "("], [".", "collect", "(", ")"], "it_try_map(", False),
                     "into_map_collect": ([".", "into_iter", "(", ")", ".", "map", "("], [".", "collect", "(", ")"], "it_into_map(", False),
+                    "sort_by": ([".", "sort_by", "("], [], "slice_sort_by(", False),
                     "map_collect_vec": ([".", "iter", "(", ")", ".", "map", "("], [t.text for t in rs.sig(rs.tokenize(".collect::<Vec<_>>()"))], "it_map_collect(", False),
                 }
                 if kind_ not in pats: raise SystemExit(f"{self.spec_path}:{c.line}: unknown adapter {kind_}")
